@@ -58,6 +58,7 @@ def run(ctx):
     r3(ctx, facts)
     r4(ctx, facts)
     r5(ctx, facts)
+    r6(ctx, facts)
 
 
 def targ_index(callee, fname):
@@ -379,3 +380,58 @@ def r5(ctx, facts):
     ok = ok and bool(loops) and bool(adv)
     ctx.ob("C12.R5c", "_process_multi_line_message:one-statement-per-line", ok,
            "the message is cut at each newline, every piece is written as its own statement, scanning resumes after the newline", fn=m)
+
+
+def r6(ctx, facts):
+    """MacroMetadata: the four source-location views are cut from 'path:line' at the same two offsets"""
+    MM = "quill::MacroMetadata::"
+
+    def ret(name):
+        f = facts.need(MM + name, "A")[0]
+        rets = [f.g.node_ast(r) for r in f.g.return_nodes()]
+        if len(rets) != 1:
+            raise AnalysisBroken("MacroMetadata::%s: single return expected" % name)
+        return f, strip(rets[0]["val"], casts=True)
+
+    def plus(e, a, b):
+        e = strip(e, casts=True)
+        if not (isnode(e) and e["k"] == "BinaryOperator" and e["op"] == "+"):
+            return False
+        terms = [strip(e["lhs"], casts=True), strip(e["rhs"], casts=True)]
+        return any(is_this_field(t, a) for t in terms) and any(is_this_field(t, b) if isinstance(b, str) else b(t) for t in terms)
+    f, e = ret("line")
+    ok = isnode(e) and e["k"] == "BinaryOperator" and e["op"] == "+" and const_val(e["rhs"]) == 1 and plus(e["lhs"], "_source_location", "_colon_separator_pos")
+    ctx.ob("C12.R6a", "MacroMetadata::line", ok, "the line is the text after the ':' of 'path:line' (source + colon + 1)", fn=f)
+    f, e = ret("short_source_location")
+    ctx.ob("C12.R6b", "MacroMetadata::short_source_location", plus(e, "_source_location", "_file_name_pos"),
+           "the short location starts at the file-name offset", fn=f)
+    f, e = ret("full_path")
+    args = e.get("args") or e.get("c") or []
+    ok = len(args) == 2 and is_this_field(strip(args[0], casts=True), "_source_location") and is_this_field(strip(args[1], casts=True), "_colon_separator_pos")
+    ctx.ob("C12.R6c", "MacroMetadata::full_path", ok, "the full path is the text before the ':' (source, length = colon offset)", fn=f)
+    f, e = ret("file_name")
+    args = e.get("args") or e.get("c") or []
+    ok = False
+    if len(args) == 2:
+        ln = strip(args[1], casts=True)
+        ok = plus(args[0], "_source_location", "_file_name_pos") and isnode(ln) and ln["k"] == "BinaryOperator" and ln["op"] == "-" and \
+            is_this_field(strip(ln["lhs"], casts=True), "_colon_separator_pos") and is_this_field(strip(ln["rhs"], casts=True), "_file_name_pos")
+    ctx.ob("C12.R6d", "MacroMetadata::file_name", ok,
+           "the file name runs from the file-name offset to the ':' (length = colon offset - file-name offset)", fn=f)
+    # the macro builds 'path:line' with exactly one ':' between __FILE__ and the line
+    path, table, gens = __import__("gen_macros").generate(())
+    mf = ctx.facts(path, "A", ())
+    w = mf.fn("qvm::m_LOG_INFO", "A")
+    ok = False
+    if w:
+        for d in w[0].var_decls().values():
+            init = d.get("init")
+            if isnode(init):
+                for x in walk(init):
+                    if is_call(x, r"MacroMetadata::MacroMetadata$"):
+                        lit = [y for y in walk(x["args"][0]) if y["k"] == "StringLiteral"]
+                        if lit:
+                            import re as _re
+                            ok = bool(_re.search(r"[^:]:\d+$", lit[0]["str"]))
+    ctx.ob("C12.R6e", "QUILL_DEFINE_MACRO_METADATA:source-location-literal", ok,
+           "the macro's source-location literal is __FILE__ ':' line-number (what the offsets above are computed on)")
